@@ -355,3 +355,130 @@ m('c18-ref-to-owned-drops-sign', ['C18'], 'to_owned:projection', [
 m('c18-from-biguint-scale-ignored', ['C18'], 'from_biguint:projection', [
   ('src/lib.rs', "        BigDecimal::from_bigint(n, scale)\n    }", "        BigDecimal::from_bigint(n, scale.min(0))\n    }")],
   'constructor clamps the scale it is given')
+# ---- C01 / C19 / C09 (R-SCALE)
+m('c01-zero-shortcut-truncates', ['C01', 'C19'], 'add_bigdecimal_refs', [
+  ('src/arithmetic/addition.rs', "let scale_diff = rhs.scale.saturating_sub(lhs.scale).max(0).min(15);\n        return lhs.to_owned_with_scale(lhs.scale + scale_diff);", "let scale_diff = rhs.scale.saturating_sub(lhs.scale).min(15);\n        return lhs.to_owned_with_scale(lhs.scale + scale_diff);")],
+  '1.23 + 0 truncates to 1 when the zero has the smaller scale (passes all 11 addition literals)')
+m('c01-mul-scale-subtracted', ['C01', 'C19'], 'Mul for BigDecimal>::mul', [
+  ('src/impl_ops_mul.rs', "            self.scale += rhs.scale;\n            self.int_val *= rhs.int_val;\n            self\n        }\n    }\n}\n\nimpl<'a> Mul<&'a BigDecimal> for BigDecimal {", "            self.scale -= rhs.scale;\n            self.int_val *= rhs.int_val;\n            self\n        }\n    }\n}\n\nimpl<'a> Mul<&'a BigDecimal> for BigDecimal {")],
+  'owned * owned subtracts the scales')
+m('c01-sub-ref-owned-forgets-neg', ['C01'], 'Sub<BigDecimal> for BigDecimalRef', [
+  ('src/impl_ops_sub.rs', """impl Sub<BigDecimal> for BigDecimalRef<'_> {
+    type Output = BigDecimal;
+
+    #[inline]
+    fn sub(self, rhs: BigDecimal) -> BigDecimal {
+        (rhs - self).neg()""", """impl Sub<BigDecimal> for BigDecimalRef<'_> {
+    type Output = BigDecimal;
+
+    #[inline]
+    fn sub(self, rhs: BigDecimal) -> BigDecimal {
+        (rhs - self)""")],
+  'ref - owned returns owned - ref')
+m('c01-addassign-int-scale-guard', ['C01', 'C19'], 'AddAssign<', [
+  ('src/impl_ops.rs', """                if rhs == 0 {
+                    // no-op
+                } else if self.scale == 0 {
+                    self.int_val += rhs;""", """                if rhs == 0 {
+                    // no-op
+                } else if self.scale <= 0 {
+                    self.int_val += rhs;""")],
+  'x += 5 adds 5 units of 10^k when x has a negative scale')
+m('c01-subassign-forgets-scale', ['C01', 'C19'], 'SubAssign<T> for BigDecimal', [
+  ('src/impl_ops_sub.rs', """                self.int_val *= ten_to_the((rhs.scale - self.scale) as u64);
+                self.int_val -= rhs.to_owned().int_val;
+                self.scale = rhs.scale;""", """                self.int_val *= ten_to_the((rhs.scale - self.scale) as u64);
+                self.int_val -= rhs.to_owned().int_val;""")],
+  'x -= &y keeps the old scale after rescaling the integer')
+m('c01-mulassign-int-one-shortcut', ['C01', 'C19'], 'MulAssign<', [
+  ('src/impl_ops.rs', """                if rhs.is_zero() {
+                    *self = BigDecimal::zero()
+                } else if rhs.is_one() {
+                    // no-op""", """                if rhs.is_zero() {
+                    *self = BigDecimal::zero()
+                } else if rhs.is_one() {
+                    *self = BigDecimal::one()""")],
+  'x *= 1 sets x to 1 (only visible under the value fact rhs = 1)')
+m('c01-mul-ref-one-wrong-scale', ['C01', 'C19'], 'Mul<&BigDecimal> for BigDecimal', [
+  ('src/impl_ops_mul.rs', """        if self.is_one() {
+            self.scale = rhs.scale;
+            self.int_val.set_zero();
+            self.int_val += &rhs.int_val;""", """        if self.is_one() {
+            self.int_val.set_zero();
+            self.int_val += &rhs.int_val;""")],
+  '1.00 * &y keeps the scale of the one (2): value off by 10^(2 - scale(y))')
+m('c01-subassign-exponent-reversed', ['C01', 'C19'], 'SubAssign for BigDecimal>::sub_assign', [
+  ('src/impl_ops_sub.rs', "                rhs_int_val *= ten_to_the((self.scale - rhs.scale) as u64);", "                rhs_int_val *= ten_to_the((rhs.scale - self.scale) as u64);")],
+  'negative exponent cast to u64')
+m('c01-unaligned-args-not-swapped', ['C01', 'C19'], 'add_bigdecimal_refs', [
+  ('src/arithmetic/addition.rs', """        Less => {
+            add_unaligned_bigdecimal_ref_ref(rhs, lhs, ctx)""", """        Less => {
+            add_unaligned_bigdecimal_ref_ref(lhs, rhs, ctx)""")],
+  'helper precondition lhs.scale >= rhs.scale violated at one call site')
+m('c01-half-odd-scale', ['C01', 'C19'], 'BigDecimal::half', [
+  ('src/lib.rs', "                int_val: self.int_val.clone().mul(5u8),\n                scale: self.scale + 1,", "                int_val: self.int_val.clone().mul(5u8),\n                scale: self.scale,")],
+  'half() of an odd unscaled integer is 5x too large')
+m('c01-square-scale', ['C01', 'C19'], 'BigDecimal::square', [
+  ('src/lib.rs', "                scale: self.scale * 2,", "                scale: self.scale + 2,")],
+  'square() adds 2 to the scale instead of doubling it')
+m('c01-set-scale-upward-divides', ['C01', 'C19', 'C09'], 'BigDecimal::set_scale', [
+  ('src/lib.rs', """            (Ordering::Greater, scale_diff) => {
+                self.scale = new_scale;
+                if scale_diff < 20 {
+                    self.int_val *= ten_to_the_u64(scale_diff as u8);
+                } else {
+                    self.int_val *= ten_to_the(scale_diff);""", """            (Ordering::Greater, scale_diff) => {
+                self.scale = new_scale;
+                if scale_diff < 20 {
+                    self.int_val *= ten_to_the_u64(scale_diff as u8);
+                } else {
+                    self.int_val /= ten_to_the(scale_diff);""")],
+  'rescaling upward by 20 or more digits divides instead of multiplying')
+m('c01-mul-bigint-zero-shortcut', ['C01', 'C19'], 'R-SCALE', [
+  ('src/impl_ops_mul.rs', """        } else if rhs.is_zero() {
+            self.scale = 0;
+            self.int_val.set_zero();
+        } else if !self.is_zero() && !rhs.is_one() {""", """        } else if rhs.is_one() {
+            self.scale = 0;
+            self.int_val.set_zero();
+        } else if !self.is_zero() && !rhs.is_zero() {""")],
+  'x * &1.00 becomes zero')
+# ---- C09
+m('c09-rem-max-to-min', ['C09'], 'Rem<', [
+  ('src/impl_ops_rem.rs', """    fn rem(self, other: &BigDecimal) -> BigDecimal {
+        let scale = cmp::max(self.scale, other.scale);
+        let num = self.take_and_scale(scale).int_val;""", """    fn rem(self, other: &BigDecimal) -> BigDecimal {
+        let scale = cmp::min(self.scale, other.scale);
+        let num = self.take_and_scale(scale).int_val;""")],
+  'owned % &ref aligns downward: digits dropped')
+m('c09-rem-refref-arms-swapped', ['C09'], 'Rem<&BigDecimal> for &BigDecimal', [
+  ('src/impl_ops_rem.rs', """            Ordering::Less => {
+                let scaled_num = num * ten_to_the((scale - self.scale) as u64);
+                scaled_num % den
+            }
+            Ordering::Greater => {
+                let scaled_den = den * ten_to_the((scale - other.scale) as u64);
+                num % scaled_den
+            }""", """            Ordering::Greater => {
+                let scaled_num = num * ten_to_the((scale - self.scale) as u64);
+                scaled_num % den
+            }
+            Ordering::Less => {
+                let scaled_den = den * ten_to_the((scale - other.scale) as u64);
+                num % scaled_den
+            }""")],
+  '&a % &b scales the wrong operand (exponent stays non-negative: 10^0)')
+m('c09-rem-ref-owned-operands-swapped', ['C09'], 'Rem<BigDecimal> for &BigDecimal', [
+  ('src/impl_ops_rem.rs', """            let scaled_num = num * ten_to_the((scale - self.scale) as u64);
+            scaled_num % den
+        };
+
+        BigDecimal::new(result, scale)""", """            let scaled_num = num * ten_to_the((scale - self.scale) as u64);
+            den % scaled_num
+        };
+
+        BigDecimal::new(result, scale)""")],
+  '&a % b computes b % a in one branch')
+m('c09-remassign-wrong-order', ['C09'], 'RemAssign', [
+  ('src/impl_ops_rem.rs', "        let rem = (&*self).rem(other);", "        let rem = other.rem(&*self);")],
+  'a %= b stores b % a')
